@@ -190,7 +190,7 @@ let cop_of_str (s : string) : cop =
   match String.split_on_char '.' s with
   | ["CFG"; a; t] -> mk (configure (num a) sign_types.(int_of_string t)) unit_s
   | ["CIN"; a; t] -> mk (configure_if_needed (num a) sign_types.(int_of_string t)) unit_s
-  | ("SND" | "SNP" | "SNW" | "SNL" | "SNQ") :: a :: rest ->
+  | ("SND" | "SNP" | "SNW" | "SNL" | "SNQ" | "SNF") :: a :: rest ->
     (* SNP / SNW: the same pages from an iterator that looks at the shared bus / that takes its time: the same call *)
     mk (send_pages (num a) (pages_of_str (String.concat "." rest))) style_s
   | ["SHW"; a; fuel] -> mk (show_loaded_page (nat_of_int (int_of_string fuel)) (num a)) unit_s
@@ -626,7 +626,7 @@ let rec handle (line : string) : string =
     let cop_of (s : string) : Model.cop = match String.split_on_char '.' s with
       | ["CFG"; a; t] -> CopConfigure (num a, sign_types.(int_of_string t))
       | ["CIN"; a; t] -> CopConfigureIfNeeded (num a, sign_types.(int_of_string t))
-      | ("SND" | "SNP" | "SNW" | "SNL" | "SNQ") :: a :: r -> CopSendPages (num a, pages_of_str (String.concat "." r))
+      | ("SND" | "SNP" | "SNW" | "SNL" | "SNQ" | "SNF") :: a :: r -> CopSendPages (num a, pages_of_str (String.concat "." r))
       | ["SHW"; a; fuel] -> CopShow (nat_of_int (int_of_string fuel), num a)
       | ["LNX"; a; fuel] -> CopLoadNext (nat_of_int (int_of_string fuel), num a)
       | ["BYE"; a] -> CopShutDown (num a)
@@ -636,7 +636,7 @@ let rec handle (line : string) : string =
     String.concat " ;; " (List.map (fun (tr, o) ->
         Printf.sprintf "%s => %s" (String.concat " " (List.map str_msg tr)) (str_outcome str_out o)) results)
   | "CT" :: op :: _ when (match String.split_on_char '.' op with
-                          | ("SND" | "SNP" | "SNW" | "SNL" | "SNQ") :: _ :: rest ->
+                          | ("SND" | "SNP" | "SNW" | "SNL" | "SNQ" | "SNF") :: _ :: rest ->
                             List.exists (fun (pg : page) -> match page_from_bytes pg.p_w pg.p_h pg.p_bytes with
                                 | Ok _ -> false | Err _ -> true)
                               (pages_of_str (String.concat "." rest))
